@@ -6,6 +6,7 @@ F_ENC = 'src/pytezos/crypto/encoding.py'
 F_OPF = 'src/pytezos/operation/forge.py'
 F_TAGS = 'src/pytezos/michelson/tags.py'
 F_KIND = 'src/pytezos/rpc/kind.py'
+F_KEY = 'src/pytezos/crypto/key.py'
 
 
 def m(id, props, file, old, new, expect='', why='', count=1):
@@ -82,6 +83,30 @@ MUTANTS = [
     m('C31-round-le', 'C31', 'src/pytezos/crypto/hash.py', "payload_round.to_bytes(4, 'big')", "payload_round.to_bytes(4, 'little')", 'block_payload_hash'),
     m('C31-single', 'C31', 'src/pytezos/crypto/hash.py', "    elif len(hashes) == 1:\n        return _hash_tuple(hashes[0])", "    elif len(hashes) == 1:\n        return hashes[0]", 'Merkle root of 1'),
     m('C31-prefix', 'C31', 'src/pytezos/crypto/hash.py', "return base58_encode(res, b'LLo').decode()", "return base58_encode(res, b'Lo').decode()", 'operation_list_list_hash'),
+    # ---- C07 / C08 / C23
+    m('C07-hasher-sign', 'C07', F_KEY, "signature = ecdsa.serialize_compact(\n                ecdsa.der_to_cdata(pk.sign(encoded_message, hasher=lambda x: blake2b_32(x).digest()))",
+      "signature = ecdsa.serialize_compact(\n                ecdsa.der_to_cdata(pk.sign(encoded_message, hasher=lambda x: hashlib.sha256(x).digest()))", 'verify uses the digest sign uses'),
+    m('C07-no-bl-verify', 'C07', F_KEY, "        elif self.curve == b'BL':\n            if not G2.Verify(", "        elif self.curve == b'BX':\n            if not G2.Verify(", 'curve BL handled'),
+    m('C07-generic-bl', ['C07', 'C23'], F_KEY, "if generic and self.curve != b'BL':", "if generic:", 'base58 row'),
+    m('C07-ecdsa-error', 'C07', F_KEY, "            except fastecdsa.ecdsa.EcdsaError as exc:  # r or s outside [1, q)\n                raise ValueError('Signature is invalid.') from exc\n", "            except KeyError as exc:\n                raise ValueError('Signature is invalid.') from exc\n", 'only ValueError escapes'),
+    m('C07-ed-nodigest', 'C07', F_KEY, "            digest = pysodium.crypto_generichash(encoded_message)\n            signature = pysodium.crypto_sign_detached(digest, self.secret_exponent)",
+      "            digest = encoded_message\n            signature = pysodium.crypto_sign_detached(digest, self.secret_exponent)", 'message digest'),
+    m('C07-checksig-handler', 'C07', 'src/pytezos/michelson/instructions/crypto.py', "        except ValueError:\n            res = BoolType(False)\n        else:\n            res = BoolType(True)", "        except ValueError:\n            res = BoolType(True)\n        else:\n            res = BoolType(True)", 'CheckSignatureInstruction'),
+    m('C08-iterations', 'C08', F_KEY, "                salt=salt,\n                iterations=32768,\n                dklen=32,\n            )\n            encrypted_sk = pysodium.crypto_secretbox(", "                salt=salt,\n                iterations=32767,\n                dklen=32,\n            )\n            encrypted_sk = pysodium.crypto_secretbox(", 'KDF iterations'),
+    m('C08-salt-slice', 'C08', F_KEY, "salt, encrypted_sk = encoded_key[:8], encoded_key[8:]", "salt, encrypted_sk = encoded_key[:16], encoded_key[16:]", 'salt'),
+    m('C08-tz-swap', 'C08', F_KEY, "{b'ed': b'tz1', b'sp': b'tz2', b'p2': b'tz3', b'BL': b'tz4'}", "{b'ed': b'tz1', b'sp': b'tz3', b'p2': b'tz2', b'BL': b'tz4'}", 'public_key_hash'),
+    m('C08-len-whitelist', 'C08', F_KEY, "in [54, 55, 76, 88, 98]", "in [54, 55, 88, 98]", 'imports BLpk'),
+    m('C08-bls-endian', 'C08', F_KEY, "            sk_int = int.from_bytes(self.secret_exponent, byteorder='little')\n            signature = G2.Sign(", "            sk_int = int.from_bytes(self.secret_exponent, byteorder='big')\n            signature = G2.Sign(", 'BLS scalar'),
+    m('C08-pkh-size', 'C08', F_KEY, "        pkh = blake2b(self.public_point, digest_size=20).digest()\n        prefix = {", "        pkh = blake2b(self.public_point, digest_size=32).digest()\n        prefix = {", 'public_key_hash'),
+    m('C08-novalidate', 'C08', F_KEY, "        validate: bool = True,", "        validate: bool = False,", 'validate defaults'),
+    m('C08-pk-as-sk', 'C08', F_KEY, "        is_secret = public_or_secret == b'sk'\n", "        is_secret = public_or_secret != b'sk'\n", 'imports'),
+    m('C08-hashkey', 'C08', 'src/pytezos/michelson/instructions/crypto.py', "res = KeyHashType.from_value(key.public_key_hash())", "res = KeyHashType.from_value(key.public_key())", 'HASH_KEY'),
+    m('C23-watermark', 'C23', 'src/pytezos/operation/group.py', "            watermark = b'\\x03'", "            watermark = b'\\x04'", 'watermark 03'),
+    m('C23-pass', 'C23', F_KIND, "    'endorsement_with_slot': 0,\n    'proposals': 1,", "    'endorsement_with_slot': 3,\n    'proposals': 1,", 'endorsement_with_slot'),
+    m('C23-payload-order', 'C23', 'src/pytezos/operation/group.py', "return bytes.fromhex(self.forge()) + forge_base58(self.signature)", "return forge_base58(self.signature) + bytes.fromhex(self.forge())", 'binary_payload'),
+    m('C23-hash-prefix', 'C23', 'src/pytezos/operation/group.py', "return base58_encode(hash_digest, b'o').decode()", "return base58_encode(hash_digest, b'B').decode()", 'OperationGroup.hash'),
+    m('C23-not-generic', 'C23', 'src/pytezos/operation/group.py', "signature = self.key.sign(message=message, generic=True)", "signature = self.key.sign(message=message)", 'generic=True'),
+    m('C23-nochain', 'C23', 'src/pytezos/operation/group.py', "            watermark = b'\\x02' + base58_decode(self.chain_id.encode())", "            watermark = b'\\x02'", 'watermark 02'),
     # ---- C05
     m('C05-tag-swap', 'C05', F_TAGS, "'DUG': b'\\x71',", "'DUG': b'\\x70',", 'prim_tags[DUG]'),
     m('C05-filler-2args', 'C05', F_FORGE, "elif args_len >= 3:\n                res.append(b'\\x00' * 4)", "elif args_len >= 2:\n                res.append(b'\\x00' * 4)", 'shape prim2a0'),
